@@ -202,7 +202,7 @@ def edge_guard(real, wkind, mvals, wval, mt, wt, edges):
 class C05(Prop):
     id = "C05"
     anchored = ["src/pewlib/io/imzml.py"]
-    cases = {"quick": 1500, "thorough": 20000}
+    cases = {"quick": 1200, "thorough": 20000}
     rule = ("synthetic imzML/ibd pairs: images 1x1..4x4, random subsets of pixels (also none), per-pixel or shared m/z axes of "
             "1..8 strictly increasing dyadic values, f32/f64 arrays, TIC stored/absent, image size present/absent; 1..5 target "
             "masses with ppm or absolute widths whose edges are exactly representable, spectra drawn from a grid plus (absolute widths) "
@@ -228,7 +228,7 @@ class C05(Prop):
             "load(path | object, ibd, targets[, ppm]). Argument types: targets as Python float / int, numpy float64 / float32 / int64 "
             "scalar, 0-d array, list / tuple of floats or ints, mixed list, float64 / float32 / int32 / int64 ndarray, strided view; "
             "width as float / int / numpy.float64 / numpy.float32, by keyword or positionally (the model is given the exact values "
-            "of what is passed). 35% of the eligible exact cases get 1-2 peaks per spectrum that dominate the window contents by more "
+            "of what is passed). 45% of the eligible exact cases get 1-2 peaks per spectrum that dominate the window contents by more "
             "than 2^53 (2^54..2^70, 1e17..1e30; float64 intensities also 2^200, 1e100..1e300) below, above, between the windows and "
             "exactly on an (excluded) upper edge, window contents staying small integers (tolerance 0). 30% of the files with >= 2 "
             "spectra get a forced pattern of stored / absent TIC along the file (stored-then-absent, absent-then-stored, "
@@ -387,7 +387,7 @@ class C05(Prop):
         # below, above and between the windows; the windows keep small exactly summable contents, so their sums stay
         # compared with tolerance 0.  The full sums of such spectra are rounding-determined: the TIC is mostly stored
         # (an absent one gets the rounding tolerance in `evaluate`), binning is not requested.
-        if dyadic and sp and not case["shared"] and case["binw"] is None and rng.random() < 0.35:
+        if dyadic and sp and not case["shared"] and case["binw"] is None and rng.random() < 0.45:
             wins = self.exact_windows(case["masses"], case["width"])
             lo_all, hi_all = min(w[0] for w in wins), max(w[1] for w in wins)
             for s in sp:
@@ -1578,9 +1578,10 @@ class C05(Prop):
                             for q, v in doms:
                                 if v >= content * 2 ** p_it and not (lo <= q < hi):
                                     (below_of if q < lo else above_of).add(q)
-                                    nontriv.add(f"dominant-{'f32' if p_it == 24 else 'f64'}-peak-{'below' if q < lo else 'above'}-nonempty-window")
+                                    big = ">2^53" if v >= content * 2 ** 53 else ">2^24"
+                                    nontriv.add(f"dominant({big}x)-peak-{'below' if q < lo else 'above'}-nonempty-window")
                 if below_of & above_of:
-                    nontriv.add(f"dominant-{'f32' if p_it == 24 else 'f64'}-peak-between-nonempty-windows")
+                    nontriv.add("dominant-peak-between-nonempty-windows")
         if brep is not None and hyp and brep["dense"] is not None and brep["model"] is not None:
             flat = [d for row in brep["dense"] for d in row if d is not None]
             if any(flat):
